@@ -602,3 +602,38 @@ func callersUniverse(h *ssa.Function) []*ssa.Function {
 	}
 	return all
 }
+
+// dispatchTable: for each same-package call in fn, the single value of a branch atom (among candidates) under which
+// the call's block is reachable — "message type k is handled by h" whatever the branching syntax (switch, if chain,
+// early returns).
+func dispatchTable(fn *ssa.Function, candidates []int64) map[int64][]*ssa.Function {
+	out := map[int64][]*ssa.Function{}
+	atoms := map[string]bool{}
+	for _, ef := range edgeFacts(fn) {
+		if l, op, r, ok := splitRel(ef.Fact); ok && (op == "==" || op == "!=") {
+			if _, err := strconv.ParseInt(r, 10, 64); err == nil {
+				atoms[l] = true
+			}
+		}
+	}
+	sentinel := int64(-7)
+	for _, ci := range allCalls(fn) {
+		h := samePkgHelper(fn, ci.Common())
+		if h == nil {
+			continue
+		}
+		for atom := range atoms {
+			var vs []int64
+			for _, v := range append([]int64{sentinel}, candidates...) {
+				if feasibleBlocks(fn, map[string]int64{atom: v})[ci.Block()] {
+					vs = append(vs, v)
+				}
+			}
+			if len(vs) == 1 && vs[0] != sentinel {
+				out[vs[0]] = append(out[vs[0]], h)
+				break
+			}
+		}
+	}
+	return out
+}
